@@ -11,6 +11,7 @@ import (
 	"sort"
 	"strconv"
 	"strings"
+	"sync"
 	"time"
 
 	"github.com/Dash-Industry-Forum/livesim2/cmd/livesim2/app"
@@ -299,6 +300,9 @@ type segIn struct {
 	LateU   int64  `json:"u_mod_1000,omitempty"`
 	EffCue  int64  `json:"effective_cue_dur_ms"`
 	OffGrid bool   `json:"segment_start_off_ms_grid,omitempty"`
+	// Concurrent: the request was one of many issued at the same time against the same server; a
+	// replay issues it together with a crowd of other subtitle requests
+	Concurrent bool `json:"concurrent,omitempty"`
 }
 
 func (in segIn) cue() int64 {
@@ -800,6 +804,10 @@ func runC12(c *lib.Ctx) error {
 	if err := r.serverCases(ls, assets, false, rng, scale); err != nil {
 		return err
 	}
+	// the same server instance, many requests at the same time
+	if err := r.concurrentCases(ls, assets, rng, scale); err != nil {
+		return err
+	}
 	// generated assets: segment boundaries off the whole second and off the millisecond grid
 	gen := genAssets()
 	gassets, gls, cleanup, err := lib.GenSetup("c12", gen)
@@ -1044,6 +1052,147 @@ func (r *runner) serverCases(ls *lib.Livesim, assets []*lib.TLAsset, generated b
 					r.terms = append(r.terms, fmt.Sprintf("CCfg %d %s %s %d", idn, lib.Zs(cd), lib.Zs(reg), st))
 				}
 			}
+		}
+	}
+	return nil
+}
+
+// concurrentCases: many timestpp / timewvtt requests at the same time against ONE long-lived server
+// (several players, languages, regions, cue durations, assets). The property speaks about every
+// response, whatever else the server is doing: each response is checked by the same oracle as the
+// sequential ones (against the reference video segment, fetched beforehand), a response that does not
+// even parse is a failure here, and a sample of the responses is replayed by the model.
+func (r *runner) concurrentCases(ls *lib.Livesim, assets []*lib.TLAsset, rng *rand.Rand, scale int) error {
+	c := r.c
+	type job struct {
+		in   segIn
+		ref  lib.SegObs
+		ts   int64
+		trex *mp4.TrexBox
+		o    subObs
+	}
+	langs := []string{"en", "sv", "fi", "de"}
+	cueDurs := []int64{0, 500, 1000}
+	trexFor := map[bool]*mp4.TrexBox{}
+	for _, wvtt := range []bool{false, true} {
+		rep := "timestpp-en"
+		if wvtt {
+			rep = "timewvtt-en"
+		}
+		url := fmt.Sprintf("/livesim2/timesubsstpp_en/timesubswvtt_en/testpic_2s/%s/init.mp4?nowMS=100000", rep)
+		resp := ls.GetRaw(url)
+		f, err := mp4.DecodeFile(bytes.NewReader(resp.Body))
+		if resp.Status != 200 || err != nil || f.Init == nil || f.Init.Moov.Mvex == nil {
+			return fmt.Errorf("%s: status %d %v", url, resp.Status, err)
+		}
+		trexFor[wvtt] = f.Init.Moov.Mvex.Trex
+	}
+	nRefs := 60
+	var jobs []*job
+	for _, a := range assets {
+		ref := a.Ref()
+		ts := ref.Timescale
+		for k := 0; k < nRefs; k++ {
+			n := rng.Int63n(60000)
+			now := ref.LoopE(n)*1000/ts + 1500
+			for _, reg := range []int{0, 1} {
+				for _, cd := range cueDurs {
+					sc := subsCfg{Mode: "number", Region: reg, CueDur: cd, Stpp: langs, Wvtt: langs}
+					cfg := sc.tl()
+					ro := lib.SegObs{}
+					refURL := lib.SegURL(a, cfg, ref, n, now)
+					for _, lang := range langs {
+						for _, wvtt := range []bool{false, true} {
+							if wvtt && rng.Intn(3) != 0 { // mostly stpp: rendered documents are the larger shared-work item
+								continue
+							}
+							prefix := "timestpp-"
+							if wvtt {
+								prefix = "timewvtt-"
+							}
+							url := fmt.Sprintf("/livesim2/%s%s/%s%s/%d.m4s?nowMS=%d", cfg.URLPrefix(), a.Path, prefix, lang, n, now)
+							in := segIn{Kind: "segment", Asset: a.Path, Wvtt: wvtt, Lang: lang, Langs: strings.Join(langs, ","), Mode: "number",
+								CueDur: cd, Region: reg, N: n, NowMS: now, URL: url, RefURL: refURL, Concurrent: true}
+							in.EffCue = in.cue()
+							jobs = append(jobs, &job{in: in, ref: ro, ts: ts, trex: trexFor[wvtt]})
+						}
+					}
+				}
+			}
+		}
+	}
+	// reference video segments, one per (asset, n), sequentially
+	refCache := map[string]lib.SegObs{}
+	for _, j := range jobs {
+		ro, ok := refCache[j.in.RefURL]
+		if !ok {
+			ro = lib.ObserveSeg(ls.GetRaw(j.in.RefURL), nil2rep(assets, j.in.Asset))
+			if ro.Status != 200 {
+				return fmt.Errorf("reference video segment %s: status %d %s", j.in.RefURL, ro.Status, ro.Panic)
+			}
+			refCache[j.in.RefURL] = ro
+		}
+		j.ref = ro
+		j.in.LateU = roundDiv(ro.Tfdt*1000, j.ts) % 1000
+	}
+	rounds := 2 * scale
+	workers := 48
+	debug.SetGCPercent(25) // frequent collections: more preemption points between the steps of a request
+	defer debug.SetGCPercent(400)
+	bad := 0
+	for round := 0; round < rounds && bad == 0; round++ {
+		rng.Shuffle(len(jobs), func(i, k int) { jobs[i], jobs[k] = jobs[k], jobs[i] })
+		ch := make(chan *job, len(jobs))
+		for _, j := range jobs {
+			ch <- j
+		}
+		close(ch)
+		var wg sync.WaitGroup
+		for w := 0; w < workers; w++ {
+			wg.Add(1)
+			go func() {
+				defer wg.Done()
+				for j := range ch {
+					j.o = parseSubSegment(ls.GetRaw(j.in.URL), j.in.Wvtt, j.trex)
+				}
+			}()
+		}
+		wg.Wait()
+		for k, j := range jobs {
+			_, id := r.id()
+			r.evals++
+			c.Count("concurrent-segment")
+			if j.o.Status == -1 {
+				bad++
+				c.Res.Inputs[id] = j.in
+				c.Fail(id, "concurrent:malformed-segment", fmt.Sprintf("%s (requested together with %d other subtitle requests on the same server): %s", j.in.URL, len(jobs)-1, j.o.Err), j.in)
+				continue
+			}
+			before := len(c.Res.OracleFailures)
+			checkSegment(c, id, j.in, j.ref, j.ts, j.o)
+			if len(c.Res.OracleFailures) > before {
+				bad++
+				c.Res.Inputs[id] = j.in
+				for i := before; i < len(c.Res.OracleFailures); i++ {
+					c.Res.OracleFailures[i].Key = "concurrent:" + c.Res.OracleFailures[i].Key
+				}
+			}
+			// a sample goes to the model (first round; later rounds only the oracle)
+			if round == 0 && k%40 == 0 {
+				idn, _ := strconv.Atoi(id)
+				c.Res.Inputs[id] = j.in
+				r.terms = append(r.terms, fmt.Sprintf("CSeg %d %s {| r_nr := %d; r_time := %d; r_dur := %d; r_ts := %d |} None 0 %d %d %d %d %d %s %s",
+					idn, lib.Cbool(j.in.Wvtt), j.ref.Seq, j.ref.Tfdt, j.ref.Dur, j.ts, j.in.cue(), j.o.Status, j.o.Nr, j.o.Time, j.o.Dur, cuesTerm(j.o.Cues), samplesTerm(j.o.Samples)))
+			}
+		}
+	}
+	return nil
+}
+
+func nil2rep(assets []*lib.TLAsset, path string) *lib.TLRep {
+	for _, a := range assets {
+		if a.Path == path {
+			return a.Ref()
 		}
 	}
 	return nil
